@@ -27,7 +27,7 @@ ASSUMPTIONS = [
     "the plug-in namespace is the seam the property prescribes; the repository ships no real cipher",
 ]
 PROBES = ["verifstream2", "slow_agent_time_differs", "set_with_marker", "context_name", "md5", "sha1", "walk_many_exchanges",
-          "priv_pass_differs_from_auth_pass", "configured_context_engine", "key_rotation", "hash_rotation", "agent_clock_ahead", "agent_clock_slow_response_older_than_estimate", "padded_plaintext"]
+          "priv_pass_differs_from_auth_pass", "configured_context_engine", "key_rotation", "hash_rotation", "plugin_rotation", "priv_without_auth", "engine_id_with_zero_run", "engine_time_near_max", "agent_clock_ahead", "agent_clock_slow_response_older_than_estimate", "padded_plaintext"]
 shrink_lists: List[tuple] = []
 OPS = ["get", "multiget", "getnext", "set", "multiset", "bulkget", "walk"]
 BASE = (1, 3, 6, 1, 2, 1, 7)
@@ -45,14 +45,18 @@ def plan_for(tier: str, seed: int, i: int) -> dict:
              "auth": rng.choice(["md5", "sha1"]), "auth_pass": auth_pass,
              "priv": rng.choice(["verifstream", "verifstream2"]),
              "priv_pass": auth_pass if rng.random() < 0.2 else gen.gen_bytes(rng, rng.choice([1, 8, 17, 64, 200]))}
-    return {"prop": ID, "proto": proto, "engine_id": b"\x80" + gen.gen_bytes(rng, rng.choice([4, 11, 31])),
+    zrng = rng_for(seed, ID, tier + ":z", i)
+    eng = b"\x80" + gen.gen_bytes(rng, rng.choice([4, 11, 31]))
+    if zrng.random() < 0.12:
+        eng = b"\x80\x00" + b"\x00" * zrng.choice([10, 12, 13, 20]) + b"\x01"      # legal engine id with a long run of zero octets
+    return {"prop": ID, "proto": proto, "engine_id": eng,
             "op": rng.choice(OPS), "payload": rng.choice([0, 1, 16, 100, 127, 128, 300]),
             "context_name": gen.gen_bytes(rng, rng.choice([0, 0, 6, 32])),
-            "delay_s": rng.choice([0, 0, 1, 2, 3]), "boots": rng.choice([1, 7, 65536]), "time0": rng.choice([0, 149, 4000, 2**24]),
+            "delay_s": rng.choice([0, 0, 1, 2, 3]), "boots": rng.choice([1, 7, 65536]), "time0": rng.choice([0, 149, 4000, 2**24, 2**31 - 1 - 3600]),
             # a context engine id configured by the user (proxy / remote context): keys stay localised to the AGENT's engine
             "engine_cfg": gen.gen_bytes(rng, rng.choice([5, 12])) if rng.random() < 0.25 else b"",
             # key rotation on the same client: same user and engine, new privacy password and/or authentication hash
-            "rotate": rng.choice([None, None, "priv_pass", "hash", "both"]),
+            "rotate": rng.choice([None, None, "priv_pass", "hash", "both", "plugin"]),
             "priv_pass2": gen.gen_bytes(rng, rng.choice([1, 9, 40])), "ctx_echo": rng.random() < 0.3,
             # the agent's clock runs ahead of what the client can estimate (forward step after discovery, inside the window)
             "skew_s": rng.choice([0, 0, 1, 7, 100]),
@@ -60,10 +64,15 @@ def plan_for(tier: str, seed: int, i: int) -> dict:
             "rate": rng.choice([1.0, 1.0, 0.75, 0.5]),
             # block-cipher agents pad the plaintext scoped PDU to a multiple of the block size before encrypting
             # (RFC 3414 8.1.1.2); an exactly inverting plug-in hands the padded plaintext back
-            "pad": rng.choice([0, 0, 1, 7, 8, 15])}
+            "pad": rng.choice([0, 0, 1, 7, 8, 15]),
+            # a user configured with a privacy key but WITHOUT an authentication key (privacy requires authentication,
+            # RFC 3414): nothing may leave the client, least of all the scoped PDU in clear
+            "misconfig": zrng.random() < 0.04}
 
 
 def simplify(plan: dict):
+    if plan.get("misconfig"):
+        return
     if plan.get("rotate"):
         p = dict(plan); p["rotate"] = None; yield p
     if plan.get("engine_cfg"):
@@ -82,7 +91,38 @@ def simplify(plan: dict):
         p = dict(plan); p["op"] = "get"; yield p
 
 
+def _execute_misconfigured(plan: dict) -> dict:
+    proto = {k: v for k, v in plan["proto"].items() if not k.startswith("auth")}
+    w = World()
+    mib = {BASE + (1, 1, 2): ("int", 42)}
+    agent = w.add_agent(agent_for(plan["proto"], mib, engine_id=plan["engine_id"]))
+    client = w.client(proto, timeout=2, retries=1)
+    exc = None
+    try:
+        w.run(scen.do_op(client, {"op": "set", "oid": BASE + (1, 1, 2), "val": ("str", MARKER + b"secret")}))
+    except Exception as e:  # noqa: BLE001
+        exc = e
+    w.settle()
+    violation = None
+    data = [r for r in agent.requests if not r.get("discovery")]
+    if exc is None:
+        violation = {"clause": "misconfigured-credentials-accepted", "detail": "V3(user, auth=None, priv=...) was used without an error"}
+    for r in agent.requests:
+        if MARKER in r["raw"]:
+            violation = {"clause": "plaintext-on-wire", "detail": "privacy key without authentication key: the SET value left the "
+                         "client in clear (%s...)" % r["raw"].hex()[:80]}
+    if violation is None and data:
+        violation = {"clause": "misconfigured-credentials-accepted", "detail": "a request left the client: %s" % data[0]["raw"].hex()[:80]}
+    out = {"violation": violation, "digest": w.net.digest(), "triggers": [], "counters": dict(w.net.counters, probe_priv_without_auth=1),
+           "shape": "misconfig", "nontrivial": True, "sim_s": w.loop.time(), "exchanges": agent.exchanges,
+           "summary": "priv without auth -> %s" % (type(exc).__name__ if exc else "accepted")}
+    w.close()
+    return out
+
+
 def execute(plan: dict) -> dict:
+    if plan.get("misconfig"):
+        return _execute_misconfigured(plan)
     import puresnmp_plugins.priv.verifstream as vs
     proto = plan["proto"]
     w = World()
@@ -125,6 +165,8 @@ def execute(plan: dict) -> dict:
             p2["priv_pass"] = plan["priv_pass2"]
         if rot in ("hash", "both"):
             p2["auth"] = "sha1" if proto["auth"] == "md5" else "md5"
+        if rot == "plugin":
+            p2["priv"] = "verifstream2" if proto["priv"] == "verifstream" else "verifstream"
         phases.append(p2)
     time_differs = older = False
     n_enc = n_dec = 0
@@ -254,6 +296,8 @@ def execute(plan: dict) -> dict:
         "priv_pass_differs_from_auth_pass": int(proto["priv_pass"] != proto["auth_pass"]),
         "configured_context_engine": int(bool(plan.get("engine_cfg"))),
         "key_rotation": int(plan.get("rotate") in ("priv_pass", "both")), "hash_rotation": int(plan.get("rotate") in ("hash", "both")),
+        "plugin_rotation": int(plan.get("rotate") == "plugin"),
+        "engine_id_with_zero_run": int(b"\x00" * 10 in plan["engine_id"]), "engine_time_near_max": int(plan["time0"] == 2**31 - 1 - 3600),
         "agent_clock_ahead": int(bool(plan.get("skew_s"))),
         "agent_clock_slow_response_older_than_estimate": int(older), "padded_plaintext": int(bool(plan.get("pad"))),
     }
